@@ -25,23 +25,23 @@ S4_NOTE = ("Trusted base: the history generator (simulated clients and object wi
 
 CHECKS = {
  "C01": ("Seeded search over generated finite models x checker configurations x schedules: the real BFS/DFS/on-demand checkers run with 1-4 workers under a deterministic scheduler that owns every synchronisation point; the multiset of states shown to the visitor is compared with an independent reachability analysis, every visitor path is re-executed. Right level because the claim is over all graphs, configurations and interleavings: exhaustive enumeration is impossible, while sampled deterministic schedules reach lost/duplicated work that a single OS schedule never shows.", "5/C01", S1_NOTE, "deterministic simulation (seeded schedule search) + reference reachability oracle"),
- "C02": ("As C01 with 1-5 always/sometimes properties labelled on the states; verdicts compared in both directions with the reference reachable set after completed exhaustive runs; assert_properties/is_done cross-checked.", "5/C02", S1_NOTE, "deterministic simulation + reference verdict oracle"),
- "C03": ("All five strategies (incl. simulation with uniform/adversarial choosers), all finish conditions, targets, depth limits, expiring timeouts, 1-4 workers: every path of discoveries() after join is re-executed against the generated graph and checked to be a genuine witness (eventually: never satisfied and maximal, or closing a cycle for simulation).", "5/C03", S1_NOTE, "deterministic simulation + witness re-execution oracle"),
- "C05": ("2-4 workers, block sizes 1-8, random/PCT/round-robin schedules, stalls, panics injected into model code and the visitor, timeouts: deadlock is detected exactly by the scheduler, termination is judged against a step budget, the evaluated set and verdicts are compared with the single-threaded run of the same workload, a worker panic must surface from join.", "5/C05", S1_NOTE, "deterministic simulation with fault injection (schedules, stalls, panics) + deadlock detection"),
+ "C02": ("As C01 with 1-5 always/sometimes properties labelled on the states; verdicts compared in both directions with the reference reachable set after completed exhaustive runs; assert_properties/is_done cross-checked (also right after spawn: a positive verdict before is_done is a violation); on-demand runs serve 1-5 check_fingerprint requests before run-to-completion; one run in six is DFS with and without symmetry on symmetric process models with several initial states and a boundary.", "5/C02", S1_NOTE, "deterministic simulation + reference verdict oracle"),
+ "C03": ("All five strategies (incl. simulation with uniform/adversarial choosers), all finish conditions, targets, depth limits, expiring timeouts, 1-4 workers: every path of discoveries() after join is re-executed against the generated graph and checked to be a genuine witness (eventually: never satisfied and maximal, or closing a cycle for simulation). A diamond mode races 2-3 workers on DAG joins whose parents disagree on an eventually-property; one run in eight checks DFS / simulation paths under symmetry reduction.", "5/C03", S1_NOTE, "deterministic simulation + witness re-execution oracle"),
+ "C05": ("2-4 workers, block sizes 1-8, random/PCT/round-robin schedules, stalls, panics injected into model code and the visitor, timeouts: deadlock is detected exactly by the scheduler, termination is judged against a step budget, the evaluated set and verdicts are compared with the single-threaded run of the same workload, a worker panic must surface from join. Further modes: the job market alone driven by synthetic workers (early exits, panics); effectively unbounded chains with a panicking side branch or an expiring timeout (fair schedule from the moment the stop reason exists); the checker dropped without join; bursts of 70-200 on-demand requests.", "5/C05", S1_NOTE, "deterministic simulation with fault injection (schedules, stalls, panics) + deadlock detection"),
  "C11": ("Eventually-properties on forests and general graphs, all strategies/threads: a reported counterexample requires a maximal never-satisfying path in the reference graph; on forests with completed exhaustive runs the converse is demanded too.", "5/C11", S1_NOTE, "deterministic simulation + reference maximal-path oracle"),
- "C12": ("Cross product of finish condition x targets x depth x timeout x threads x strategy sampled swarm-style under a virtual clock (stalls, wall-clock jumps, effectively unbounded counter models): matches() vs reference predicate, justified early stops, target/depth limits, bounded liveness after timeout expiry stated in fair scheduler steps once faults stop, no thread blocked on a lock whose owner sleeps, seed replay of the first simulation trace.", "5/C12", S1_NOTE, "deterministic simulation with virtual time + bounded-liveness oracle"),
- "C19": ("The real on-demand checker (1-3 workers) runs under the scheduler behind the Explorer's request handlers (called through a cfg-gated facade, no HTTP): a simulated browser thread issues a seeded script of states / status / check_fingerprint requests (valid, mutated and unparsable fingerprint paths; pending and bogus states) between quiescent points while other browser threads poll status, then run-to-completion. states must list exactly the model's actions with successor states and fingerprints (ignored actions without), 404 <=> no execution; status counts must lie between the checker's counts around the call and every property path decode to a genuine witness; a requested pending state must be evaluated and its successors generated; after run-to-completion is_done and evaluated set / verdicts equal the reference. Path API (from_actions, encode, into_*, from_fingerprints, final_state) is compared with a reference walk. The HTTP server, its routing match and ui/app.js are not executed.", "5/C19", S1_NOTE, "deterministic simulation (scheduler-controlled browser and worker threads) + reference model oracle"),
+ "C12": ("Cross product of finish condition x targets x depth x timeout x threads x strategy sampled swarm-style under a virtual clock (stalls, wall-clock jumps, effectively unbounded counter models): matches() vs reference predicate, justified early stops, target/depth limits, bounded liveness after timeout expiry stated in fair scheduler steps once faults stop, no thread blocked on a lock whose owner sleeps, seed replay of the first simulation trace (also with symmetry reduction on symmetric models). Generated states are counted on the model side as well, a target-only mode has several out-of-boundary initial states.", "5/C12", S1_NOTE, "deterministic simulation with virtual time + bounded-liveness oracle"),
+ "C19": ("The real on-demand checker (1-3 workers) runs under the scheduler behind the Explorer's request handlers (called through a cfg-gated facade, no HTTP): a simulated browser thread issues a seeded script of states / status / check_fingerprint requests (valid, mutated and unparsable fingerprint paths; pending and bogus states) between quiescent points while other browser threads poll status, then run-to-completion. states must list exactly the model's actions with successor states and fingerprints (ignored actions without), 404 <=> no execution; status counts must lie between the checker's counts around the call and every property path decode to a genuine witness; a requested pending state must be evaluated and its successors generated; after run-to-completion is_done and evaluated set / verdicts (eventually: exact on forests) equal the reference; some models mute format_step. Path API (from_actions, encode, into_*, from_fingerprints, final_state) is compared with a reference walk. The HTTP server, its routing match and ui/app.js are not executed.", "5/C19", S1_NOTE, "deterministic simulation (scheduler-controlled browser and worker threads) + reference model oracle"),
  "C13": ("Single-worker BFS with every block size on generated graphs: visit depths must be non-decreasing and equal the reference shortest distance; always/sometimes witness length equals the shortest distance to a witnessing state. Weakest fit for the technique (no interleaving beyond harness vs worker): the simulator contributes seeded programs, the block-boundary knob and replay.", "5/C13", S1_NOTE, "deterministic simulation (seeded programs) + shortest-path oracle"),
  "C04": ("Seeded fault-heavy walks of generated actor systems (crashes, timers, random choices, drops, all network kinds); every reached state, a perturbed rebuild (shuffled insertion, other hasher keys, spare capacity, remove+reinsert) and its neighbours (crash flag flipped, timer/choice moved to the adjacent actor, message removed), plus container families (sets/maps side by side and nested, Vec<Timers>, VectorClock with trailing zeros, DenseNatMap) go through: equal canonical dump => equal fingerprint, different dump => different sequence of typed Hasher calls (a certain collision whatever the hash function), == <=> equal dump. The perturbation half is seeded value generation around states the simulation reached and is labelled so in the evidence.", "5/C04", S2_NOTE, "deterministic simulation (seeded fault walks) + recording-hasher identity oracle"),
  "C06": ("Real ActorModel::actions/next_state driven by seeded fault-biased walks in lockstep with an independent reference stepper; at every step the sets of effective (action, successor) pairs must be equal and every successor equal component by component (actor state, network, timers, choices, crash flags, history order).", "5/C06", S2_NOTE, "deterministic simulation (seeded fault walks) + lockstep reference model"),
  "C07": ("As C06 on traffic-heavy systems (repeated identical messages, several per flow, initial contents, drops, redeliveries) for the three network kinds x lossy: content equals the reference flows/multiset/set after every step; deliverable set, drop offers, len(), iter_all() (consumed with a hard cap so a non-terminating iterator is a finding, not a hang) and iter_deliverable() agree with the content.", "5/C07", S2_NOTE, "deterministic simulation (message-fault walks) + reference network model"),
- "C09": ("As C06 with crash budgets 1-2 and crashes forced right after a send to the victim, with timers armed and choices pending: crash offered <=> actor up and fewer than k down; crash only sets the flag and clears the victim's timers/choices; no step of a crashed actor is ever effective, deliveries to it leave the message in place.", "5/C09", S2_NOTE, "deterministic simulation (crash-point injection) + reference crash semantics"),
- "C10": ("S2 half: representative() of every state reached by seeded walks equals the state permuted by the stable argsort of the actor states (actor order, envelope endpoints, ids inside messages/history/local state, timers, crash flags, choices), computed by harness code.", "5/C10", S2_NOTE, "deterministic simulation (seeded walks) + permutation oracle"),
+ "C09": ("As C06 with crash budgets 1-2 and crashes forced right after a send to the victim, with timers armed and choices pending: crash offered <=> actor up and fewer than k down; crash only sets the flag and clears the victim's timers/choices; no step of a crashed actor is ever effective, deliveries to it leave the message in place, and every step of an actor that is up stays possible. One run in six is the real BFS/DFS (1-3 workers, under the scheduler) on a small system, whose visited states must equal the reference reachable set; the builder order (budget before / after the actors) is randomised.", "5/C09", S2_NOTE, "deterministic simulation (crash-point injection) + reference crash semantics"),
+ "C10": ("S2 half: representative() of every state reached by seeded walks equals the state permuted by the stable argsort of the actor states (actor order, envelope endpoints, ids inside messages/history/local state, timers, crash flags, choices), computed by harness code; plans built by sorting vectors with ties (up to 300 values) and every provided container (Vec, VecDeque, BTreeSet/Map, hashable set/map, Option, tuple, Arc, DenseNatMap, RandomChoices) rewritten under them are compared with the stable sorting permutation. Checker half (one run in four): DFS with / without symmetry and simulation with symmetry on symmetric process models (several initial states, boundary) under the scheduler: verdicts, counts vs symmetry classes, paths.", "5/C10", S2_NOTE, "deterministic simulation (seeded walks) + permutation oracle"),
  "C08": ("Concurrent histories are produced by a seeded schedule of simulated client threads against a simulated shared object (correct, or faulty: stale read, lost write, wrong return, duplicated reply, reply without request, re-invocation without waiting), with operations left in flight, and fed event by event to the real LinearizabilityTester; after every event its verdict is compared with an exhaustive search of the definition, any serialization it returns is validated, ill-formed events must give Err and stay rejected. Four specs incl. one using the default is_valid_step.", "5/C08", S4_NOTE, "deterministic simulation of clients/object (seeded histories with faults) + exhaustive definition oracle"),
  "C14": ("As C08 for the SequentialConsistencyTester (no real-time filter), plus: every prefix accepted by the linearizability tester is accepted by this one, and a clone of either tester taken before an event is unchanged after the original moved on.", "5/C14", S4_NOTE, "deterministic simulation of clients/object + exhaustive definition oracle"),
  "C15": ("A bare actor system and the same system wrapped in an adapter (Choice<A,Never>, Choice<A1,A2> in L/R positions, three-level nesting, RegisterActor::Server, WORegisterActor::Server; Vec client vs a reference client) are walked in lockstep by a seeded walker over messages, timers, random choices, drops and crashes; effective steps must correspond one to one and successor states be equal modulo the wrapper constructor.", "5/C15", S2_NOTE, "deterministic simulation (seeded lockstep walks) + isomorphism oracle"),
  "C16": ("2-3 link-wrapped actors exchange uniquely numbered messages over duplicating / non-duplicating / ordered networks with loss; a seeded walker chooses deliveries, drops, reorderings and resend-timer firings, then a quiescence phase (no more faults, fair deliveries and resends) drains the links. At every state the sequence handed to each wrapped receiver must be a prefix of what was sent to it, an un-handed message must still be pending acknowledgement, and with nothing pending the sequences are equal. Hand-overs are observed at the wrapped actor's own on_msg.", "5/C16", S2_NOTE, "deterministic simulation with message-fault injection + prefix/exactly-once oracle"),
- "C17": ("The real actor::spawn() loop runs 1-4 instrumented script actors as simulation threads on virtual UDP sockets bound to seeded IPv4 addresses, under the baton scheduler and the virtual clock, with injected datagram drop / duplication / delay and reordering / send and receive errors / junk, empty and foreign datagrams / stalls, and timer scripts with set, cancel and re-arm sequences over ranges with start == end and start < end. The merged handler log and socket-seam log must satisfy: on_start first and once; each on_msg matches injectively a datagram already delivered to that socket, with the deserialized payload and Id::from(sender address); each handler's sends appear on its socket in emission order before its next handler; timers fire only while armed and no earlier than arming + range.start; state threading; Id <-> SocketAddrV4 round trips. Safety only: that armed timers do fire and that delivered datagrams are handed over are probes.", "5/C17", S1_NOTE.replace("the graph generator and the independent reference analysis (dsim/src/s1/graph.rs)", "the virtual UDP/clock (dsim/src/sched.rs) and the log oracle (dsim/src/s3/mod.rs)"), "deterministic simulation (virtual UDP, virtual clock, fault injection) + log-matching oracle"),
+ "C17": ("The real actor::spawn() loop runs 1-4 instrumented script actors as simulation threads on virtual UDP sockets bound to seeded IPv4 addresses, under the baton scheduler and the virtual clock, with injected datagram drop / duplication / delay and reordering / send and receive errors / junk, empty and foreign datagrams / stalls, and timer scripts with set, cancel and re-arm sequences over ranges with start == end and start < end. The merged handler log and socket-seam log must satisfy: on_start first and once; each on_msg matches injectively a datagram already delivered to that socket, with the deserialized payload and Id::from(sender address); each handler's sends appear on its socket in emission order before its next handler; timers fire only while armed and no earlier than arming + range.start; state threading; Id <-> SocketAddrV4 round trips. The simulated codec is length-tolerant, has one unserializable message, one message with a zero-byte encoding and blobs of up to 12 000 bytes. Safety only: that armed timers do fire and that delivered datagrams are handed over are probes.", "5/C17", S1_NOTE.replace("the graph generator and the independent reference analysis (dsim/src/s1/graph.rs)", "the virtual UDP/clock (dsim/src/sched.rs) and the log oracle (dsim/src/s3/mod.rs)"), "deterministic simulation (virtual UDP, virtual clock, fault injection) + log-matching oracle"),
  "C18": ("Spec half: operation sequences from generated histories are applied to Register / WORegister / Vec; is_valid_step is compared with invoke for the actual and a perturbed return (and the resulting object state after a valid step), is_valid_history with invoking from the initial object. Harness half: seeded walks (deliveries, drops, crashes) of systems built from RegisterActor / WORegisterActor clients with the record_invocations / record_returns hooks around servers that answer each request at most once (direct, forwarding, delaying, silent; 1-2 servers, 1-3 clients, all network kinds); per client at most one outstanding request with a fresh id, and the recorded tester must equal a shadow tester fed with exactly the client-visible sends and accepted replies.", "5/C18", S4_NOTE + " " + S2_NOTE, "deterministic simulation (seeded histories and harness walks) + shadow-history oracle"),
 }
 
